@@ -18,8 +18,14 @@ TSpec == TInit /\ [][TNext]_l
 Step == Trace[l - 1]
 Dang(r) == IF r.err THEN {} ELSE {d.kind : d \in Dangling(r.post)}
 Shape(r) == IF r.err THEN {} ELSE (IF SelfRefsOK(r.post) THEN {} ELSE {"selfref"}) \cup (IF NoDupObjects(r.post) THEN {} ELSE {"duplicate-object"})
-Bad(r) == Dang(r) # {} \/ Shape(r) # {}
+(* C05 (d), configuration route: an input restricted with `allowed_objects` (names of the input's package, exact spelling)  *)
+(* keeps exactly the listed objects plus everything they reference. r.full is the unrestricted parse of the same document.    *)
+PostNames(S) == UNION {{<<S[i].pkg, n>> : n \in NamesOf(S, S[i].pkg)} : i \in DOMAIN S}
+Allowed(r) == IF r.err \/ r.allowed = <<>> THEN {}
+              ELSE IF PostNames(r.post) = Reach(r.full, {<<r.allowed[i].pkg, r.allowed[i].obj>> : i \in DOMAIN r.allowed})
+                   THEN {} ELSE {"allowed-objects"}
+Bad(r) == Dang(r) # {} \/ Shape(r) # {} \/ Allowed(r) # {}
 Verdict == l = 1 \/ ~Bad(Step) \/
-           (~Strict /\ PrintT(<<"FAIL", ToJson([l |-> l - 1, dangling |-> Dang(Step), shape |-> Shape(Step)])>>))
+           (~Strict /\ PrintT(<<"FAIL", ToJson([l |-> l - 1, dangling |-> Dang(Step), shape |-> Shape(Step), allowed |-> Allowed(Step)])>>))
 Done == l = Len(Trace) + 1 => PrintT(<<"CONSUMED", l - 1>>)
 ===============================================================================
